@@ -295,4 +295,266 @@ theorem syncAll_deregisterX {s s' : XState} {idx : Nat} {p node svcId chkId : St
     · exact syncAll_onSt h (fun st st' hst => (deleteCheck_spec hst).2.1) hs
     · exact syncAll_deleteNodeX h hs
 
+
+theorem syncAll_coordUpdate (s : XState) (us : List CoordRow) (hs : SyncAll s) : SyncAll (coordUpdate s us) := by
+  unfold coordUpdate
+  induction us generalizing s with
+  | nil => exact hs
+  | cons u rest ih =>
+    simp only [List.foldl_cons]
+    apply ih
+    split
+    · intro q; exact hs q
+    · exact hs
+
+theorem syncAll_txnNodeX {s s' : XState} {idx : Nat} {v : CatVerb} {n : Node} {rs : List TxnRes}
+    (h : txnNodeX s idx v n = .ok (s', rs)) (hs : SyncAll s) : SyncAll s' := by
+  unfold txnNodeX at h
+  cases v <;> simp only at h
+  · split at h
+    · simp [okResX] at h; exact h.1 ▸ hs
+    · simp at h
+  · split at h
+    · next s1 h1 => simp [okResX] at h; exact h.1 ▸ syncAll_ensureNodeX h1 hs
+    · simp at h
+  · split at h
+    · next s1 h1 =>
+      simp [okResX] at h
+      unfold ensureNodeCasX at h1
+      split at h1
+      · simp at h1
+      · split at h1
+        · next s2 h2 => simp at h1; exact h.1 ▸ h1 ▸ syncAll_ensureNodeX h2 hs
+        · simp at h1
+    · simp at h
+    · simp at h
+  · split at h
+    · next s1 h1 => simp [okResX] at h; exact h.1 ▸ syncAll_deleteNodeX h1 hs
+    · simp at h
+  · split at h
+    · next s1 h1 =>
+      simp [okResX] at h
+      unfold deleteNodeCasX at h1
+      split at h1
+      · simp at h1
+      · split at h1
+        · simp at h1
+        · split at h1
+          · next s2 h2 => simp at h1; exact h.1 ▸ h1 ▸ syncAll_deleteNodeX h2 hs
+          · simp at h1
+    · simp at h
+    · simp at h
+
+theorem syncAll_txnServiceX {s s' : XState} {idx : Nat} {v : CatVerb} {node : String} {q : SvcReq} {rs : List TxnRes}
+    (h : txnServiceX s idx v node q = .ok (s', rs)) (hs : SyncAll s) : SyncAll s' := by
+  unfold txnServiceX at h
+  cases v <;> simp only at h
+  · split at h
+    · simp [okResX] at h; exact h.1 ▸ hs
+    · simp at h
+  · split at h
+    · next s1 h1 => simp [okResX] at h; exact h.1 ▸ syncAll_ensureServiceX h1 hs
+    · simp at h
+  · split at h
+    · next s1 h1 =>
+      simp [okResX] at h
+      unfold ensureServiceCasX at h1
+      split at h1
+      · simp at h1
+      · split at h1
+        · next s2 h2 => simp at h1; exact h.1 ▸ h1 ▸ syncAll_ensureServiceX h2 hs
+        · simp at h1
+    · simp at h
+    · simp at h
+  · split at h
+    · next s1 h1 => simp [okResX] at h; exact h.1 ▸ syncAll_deleteServiceX h1 hs
+    · simp at h
+  · split at h
+    · next s1 h1 =>
+      simp [okResX] at h
+      unfold deleteServiceCasX at h1
+      split at h1
+      · simp at h1
+      · split at h1
+        · simp at h1
+        · split at h1
+          · next s2 h2 => simp at h1; exact h.1 ▸ h1 ▸ syncAll_deleteServiceX h2 hs
+          · simp at h1
+    · simp at h
+    · simp at h
+
+theorem svcs_txnCheck {s s' : State} {idx : Nat} {v : CatVerb} {c : Chk} {rs : List TxnRes}
+    (h : txnCheck s idx v c = .ok (s', rs)) : s'.svcs = s.svcs := by
+  unfold txnCheck at h
+  cases v <;> simp only [okRes] at h
+  · split at h
+    · simp at h; rw [← h.1]
+    · simp at h
+  · split at h
+    · next s1 h1 => simp at h; rw [← h.1]; exact (ensSpec_ensureCheck h1).svcs
+    · simp at h
+  · split at h
+    · next s1 h1 =>
+      simp at h; rw [← h.1]
+      unfold ensureCheckCas at h1
+      split at h1
+      · simp at h1
+      · split at h1
+        · next s2 h2 => simp at h1; rw [← h1]; exact (ensSpec_ensureCheck h2).svcs
+        · simp at h1
+    · simp at h
+    · simp at h
+  · split at h
+    · next s1 h1 => simp at h; rw [← h.1]; exact (deleteCheck_spec h1).2.1
+    · simp at h
+  · split at h
+    · next s1 h1 =>
+      simp at h; rw [← h.1]
+      unfold deleteCheckCas at h1
+      split at h1
+      · simp at h1
+      · split at h1
+        · simp at h1
+        · split at h1
+          · next s2 h2 => simp at h1; rw [← h1]; exact (deleteCheck_spec h2).2.1
+          · simp at h1
+    · simp at h
+    · simp at h
+
+theorem syncAll_setLocSt {s : XState} {st' : State} (h : st'.svcs = s.loc.st.svcs) (hs : SyncAll s) :
+    SyncAll { s with loc := { s.loc with st := st' } } := by
+  have heq : ({ s with loc := { s.loc with st := st' } } : XState) = s.setCat "" { s.cat "" with st := st' } := by
+    unfold XState.setCat XState.cat; simp
+  rw [heq]
+  exact SyncAll.setSt "" (by rw [← loc_eq_cat]; exact h) hs
+
+theorem syncAll_txnStepX {s s' : XState} {idx : Nat} {op : XTxnOp} {rs : List TxnRes}
+    (h : txnStepX s idx op = .ok (s', rs)) (hs : SyncAll s) : SyncAll s' := by
+  cases op with
+  | service v node q => exact syncAll_txnServiceX h hs
+  | base bop =>
+    cases bop with
+    | node v n => exact syncAll_txnNodeX h hs
+    | service v x => exact syncAll_txnServiceX h hs
+    | kv v e =>
+      simp only [txnStepX] at h
+      split at h
+      · next st' rs' hst =>
+        simp [okResX] at h; obtain ⟨rfl, -⟩ := h
+        exact syncAll_setLocSt (catView_svcs (catView_txnKV hst)) hs
+      · simp at h
+    | check v c =>
+      simp only [txnStepX] at h
+      split at h
+      · next st' rs' hst =>
+        simp [okResX] at h; obtain ⟨rfl, -⟩ := h
+        exact syncAll_setLocSt (svcs_txnCheck hst) hs
+      · simp at h
+    | sessionDelete id =>
+      simp only [txnStepX] at h
+      split at h
+      · next st' rs' hst =>
+        simp [okResX] at h; obtain ⟨rfl, -⟩ := h
+        refine syncAll_setLocSt ?_ hs
+        simp only [txnStep] at hst
+        split at hst
+        · next s1 h1 => simp [okRes] at hst; rw [← hst.1]; exact (casRel_deleteSession h1).svcs
+        · simp at hst
+      · simp at h
+
+theorem syncAll_txnLoopX (idx : Nat) : ∀ (ops : List XTxnOp) (i : Nat) (s : XState) (rs : List TxnRes) (es : List (Nat × XErr)),
+    SyncAll s → SyncAll (txnLoopX idx ops i s rs es).1 := by
+  intro ops
+  induction ops with
+  | nil => intro i s rs es hs; exact hs
+  | cons op rest ih =>
+    intro i s rs es hs
+    simp only [txnLoopX]
+    split
+    · next s' r hstep => exact ih _ _ _ _ (syncAll_txnStepX hstep hs)
+    · exact ih _ _ _ _ hs
+
+theorem syncAll_txnRWX {s : XState} (idx : Nat) (ops : List XTxnOp) (hs : SyncAll s) : SyncAll (txnRWX s idx ops).1 := by
+  unfold txnRWX
+  have := syncAll_txnLoopX idx ops 0 s [] [] hs
+  generalize txnLoopX idx ops 0 s [] [] = r at this
+  obtain ⟨s', rs, es⟩ := r
+  simp only
+  split
+  · exact this
+  · exact hs
+
+theorem syncAll_store_plain {s : XState} (idx : Nat) (c : Cmd) (hc : c.isPlain = true) (hs : SyncAll s) :
+    SyncAll (stepX s idx (.store c)).1 := by
+  have hstep : (stepX s idx (.store c)).1 = { s with loc := { s.loc with st := (apply s.loc.st idx c).1 } } := by
+    cases c <;> first | (simp [Cmd.isPlain] at hc; done) | rfl
+  rw [hstep]
+  exact syncAll_setLocSt (svcs_apply_plain idx c hc) hs
+
+theorem syncAll_stepX {s : XState} (idx : Nat) (c : XCmd) (hs : SyncAll s) : SyncAll (stepX s idx c).1 := by
+  cases c with
+  | register r => exact vc_liftSX (P := SyncAll) hs (fun s' h => syncAll_registerX h hs)
+  | deregister p node svcId chkId => exact vc_liftSX (P := SyncAll) hs (fun s' h => syncAll_deregisterX h hs)
+  | coords us => exact syncAll_coordUpdate s us hs
+  | sysmeta k v => exact SyncAll.of_frame (xframe_sysMetaSet s k v) hs
+  | configSet kind name dest tok => exact vc_liftSX (P := SyncAll) hs (fun s' h => SyncAll.of_frame (xframe_configUpsert h) hs)
+  | configDelete kind name => exact SyncAll.of_frame (xframe_configDelete s kind name) hs
+  | txn ops => simp only [stepX]; exact syncAll_txnRWX idx ops hs
+  | store c =>
+    cases c with
+    | register r => exact vc_liftSX (P := SyncAll) hs (fun s' h => syncAll_registerX h hs)
+    | deregister node svcId chkId => exact vc_liftSX (P := SyncAll) hs (fun s' h => syncAll_deregisterX h hs)
+    | txn ops => simp only [stepX]; exact syncAll_txnRWX idx _ hs
+    | kvSet e => exact syncAll_store_plain idx _ rfl hs
+    | kvCas e => exact syncAll_store_plain idx _ rfl hs
+    | kvDelete k => exact syncAll_store_plain idx _ rfl hs
+    | kvDeleteCas k ci => exact syncAll_store_plain idx _ rfl hs
+    | kvDeleteTree p => exact syncAll_store_plain idx _ rfl hs
+    | kvLock e => exact syncAll_store_plain idx _ rfl hs
+    | kvUnlock e => exact syncAll_store_plain idx _ rfl hs
+    | sessionCreate r => exact syncAll_store_plain idx _ rfl hs
+    | sessionDestroy id => exact syncAll_store_plain idx _ rfl hs
+    | reap u => exact syncAll_store_plain idx _ rfl hs
+    | pqSet id sess => exact syncAll_store_plain idx _ rfl hs
+    | pqDelete id => exact syncAll_store_plain idx _ rfl hs
+
+theorem syncAll_applyX {s : XState} (idx : Nat) (c : XCmd) (hs : SyncAll s) : SyncAll (applyX s idx c).1 := by
+  have h1 := syncAll_stepX idx c hs
+  intro q
+  exact h1 q
+
+/-- in every reachable state every catalog's attribute table is in step with its service table -/
+theorem syncAll_replayX : ∀ (log : XLog) (s : XState), SyncAll s → SyncAll (replayX s log) := by
+  intro log
+  induction log with
+  | nil => intro s hs; exact hs
+  | cons ic rest ih =>
+    intro s hs
+    unfold replayX
+    simp only [List.foldl_cons]
+    exact ih _ (syncAll_applyX ic.1 ic.2 hs)
+
+/-- with the tables in step the joined view keeps every service row -/
+theorem rows_length_of_sync {c : Cat} (h : Sync c) : c.rows.length = c.st.svcs.length := by
+  unfold Cat.rows
+  have key : ∀ (svcs : List Svc), (∀ v ∈ svcs, v.pk ∈ c.ext.map SvcX.pk) →
+      (svcs.filterMap fun v => (tfind SvcX.pk v.pk c.ext).map fun e => (v, e)).length = svcs.length := by
+    intro svcs
+    induction svcs with
+    | nil => intro _; rfl
+    | cons v rest ih =>
+      intro hall
+      have hv := hall v List.mem_cons_self
+      obtain ⟨e, he, hk⟩ := List.mem_map.mp hv
+      have hsome : (tfind SvcX.pk v.pk c.ext).isSome = true := tfind_isSome_of_mem he hk
+      cases hf : tfind SvcX.pk v.pk c.ext with
+      | none => rw [hf] at hsome; simp at hsome
+      | some e' =>
+        simp only [List.filterMap_cons, hf, Option.map_some, List.length_cons]
+        rw [ih (fun w hw => hall w (List.mem_cons_of_mem _ hw))]
+  apply key
+  intro v hv
+  rw [h]
+  exact List.mem_map.mpr ⟨v, hv, rfl⟩
+
 end CV.Store
